@@ -11,16 +11,21 @@ import (
 	"strconv"
 )
 
-const ruleText = "bases: 8 generated PDFs (classic xref; xref stream+object streams+Flate; Type0/ToUnicode; indirect /Length+indirect Resources; two revisions+depth-2 page tree; Flate+PNG predictor; nested Form XObjects; embedded TrueType program), DOCX, ODT, XLSX, PPTX, EPUB2, EPUB3, HTML (0.6-7 KB each). " +
-	"Fault catalogue, applied at EVERY site (no sampling): (1) truncation at every byte offset of the file and at every token boundary of every ZIP member / decoded PDF stream; (2) every maximal digit run -> 0, -1, 2147483648, 9223372036854775807, every binary ZIP header field -> 0, all-ones, high-bit, max-positive; " +
-	"(3) PDF: every indirect reference retargeted to every object number, every startxref, /Prev and xref-entry offset retargeted to every section and object offset (incl. itself); (4) every PDF object dropped / duplicated (rebuilt through pdfw with a consistent xref, and raw span removal / duplication), every ZIP member dropped / duplicated; " +
-	"(5) every delimiter deleted / doubled / swapped for its partner (PDF ( ) [ ] < > << >>, XML/HTML < > \" / = & ;); (6) every compressed stream (PDF Flate streams, deflated ZIP members: raw bytes and inside a consistent container) first/middle/last byte flipped, truncated by 1, emptied; " +
-	"(7) single-byte substitution at every offset of every base file, of every ZIP member's content (re-zipped validly) and of every decoded PDF Flate stream (re-encoded) from {00,FF,20,0A,<,>,(,),[,/,0,9}. Classes 2,3,5 are applied twice on PDFs: on the raw bytes, and on the object bodies of the pdfw plan with the file rebuilt (offsets and /Length stay consistent). " +
-	"Doubles: all pairs of structural faults (classes 2-6) within the same PDF object / xref section / XML tag (quick), all pairs per layer under a time budget (thorough). " +
-	"Entry points: structural singles and token-boundary truncations run tabula.Open(f) x {Text, ToMarkdown, ToMarkdownWithOptions, Chunks, ChunksWithConfig, Document, PageCount, ExcludeHeadersAndFooters.Text, JoinParagraphs.Text, Pages(1).Text} (+ for PDFs Fragments, Analyze, Lines, Paragraphs, ReadingOrder, Headings, Lists, Blocks, Elements, IsCharacterLevel, IsMultiColumn, ExcludeHeadersAndFooters.Lines, ByColumn.Text, PreserveLayout.Text; for HTML FromHTMLString/FromHTMLReader x Text, ToMarkdown, Document, Chunks) + format.DetectFromReader + the raw parsers that match the faulted span " +
-	"(core.Parser.ParseIndirectObject/ParseObject on the object, XRefParser.ParseXRefFromEOF/ParseAllXRefs on the file, contentstream.Parse + text.ExtractFromBytes on a content stream, font.ParseToUnicodeCMap on a CMap, Stream.Decode/ObjectStream on Flate data); byte substitutions and other truncations run Text, ToMarkdown, Chunks, PageCount + the matching raw parsers; doubles run Text, Chunks, PageCount + the matching raw parsers; " +
-	"every PDF-only method is also called on every non-PDF base (unfaulted, empty, cut in half). distinct = distinct descriptors (base, part, fault class, site, replacement, entry); non-trivial = at least one fault applied. " +
-	"Oracle: the call returns a value or an error; violation = Go panic (signature panic@first tabula frame), blown step/depth/allocation budget (steps@hottest loop, depth@function, alloc@make site), worker death, 300 s backstop."
+func ruleText(thorough bool) string {
+	reduced := "byte substitutions and the remaining truncations run Text, ToMarkdown, PageCount (PDF; Chunks is a prefix of ToMarkdown there) or Text, Chunks (other formats) + the matching raw parsers; doubles: all pairs of structural faults (classes 2-6) within the same PDF object / xref section / ZIP record / XML tag, run through Text, PageCount (PDF) or Text (other formats) + the matching raw parsers; "
+	if thorough {
+		reduced = "byte substitutions and the remaining truncations run Text, ToMarkdown, Chunks, PageCount + the matching raw parsers; doubles: all pairs of structural faults (classes 2-6) within the same PDF object / xref section / ZIP record / XML tag, then all remaining pairs of the same layer until the internal time budget is used up, run through Text, Chunks, PageCount + the matching raw parsers; "
+	}
+	return "bases: 8 generated PDFs (classic xref; xref stream+object streams+Flate; Type0/ToUnicode; indirect /Length+indirect Resources; two revisions+depth-2 page tree; Flate+PNG predictor+xref stream; nested Form XObjects; embedded TrueType program), DOCX, ODT, XLSX, PPTX, EPUB2, EPUB3, HTML (0.6-7 KB each). " +
+		"Fault catalogue, applied at EVERY site (no sampling): (1) truncation at every byte offset of the file and at every token boundary of every ZIP member / decoded PDF Flate stream; (2) every maximal digit run -> 0, -1, 2147483648, 9223372036854775807, every binary ZIP header field -> 0, all-ones, high-bit, max-positive; " +
+		"(3) PDF: every indirect reference retargeted to every object number, every startxref, /Prev and xref-entry offset retargeted to every section and object offset; (4) every PDF object dropped / duplicated (rebuilt through pdfw with a consistent xref, and raw span removal / duplication), every ZIP member dropped / duplicated; " +
+		"(5) every delimiter deleted / doubled / swapped for its partner (PDF ( ) [ ] < > << >>, XML/HTML < > \" / = & ;); (6) every compressed stream (PDF Flate streams, deflated ZIP members: raw bytes and inside a consistent container) first/middle/last byte flipped, truncated by 1, emptied; " +
+		"(7) single-byte substitution at every offset of every base file, of every ZIP member's content (re-zipped validly) and of every decoded PDF Flate stream (re-encoded) from {00,FF,20,0A,<,>,(,),[,/,0,9}. Classes 2,3,5 are applied twice on PDFs: on the raw bytes, and on the object bodies of the pdfw plan with the file rebuilt (offsets and /Length stay consistent). " +
+		"Entry points: structural singles and token-boundary truncations run tabula.Open(f) x {Text, ToMarkdown, ToMarkdownWithOptions, Chunks, ChunksWithConfig, Document, PageCount, ExcludeHeadersAndFooters.Text, JoinParagraphs.Text, Pages(1).Text} (+ for PDFs Fragments, Analyze, Lines, Paragraphs, ReadingOrder, Headings, Lists, Blocks, Elements, IsCharacterLevel, IsMultiColumn, ExcludeHeadersAndFooters.Lines, ByColumn.Text, PreserveLayout.Text; for HTML FromHTMLString/FromHTMLReader x Text, ToMarkdown, Document, Chunks) + format.DetectFromReader + the raw parsers that match the faulted span " +
+		"(core.Parser.ParseIndirectObject/ParseObject on the object, XRefParser.ParseXRefFromEOF/ParseAllXRefs on the file, contentstream.Parse + text.ExtractFromBytes on a content stream, font.ParseToUnicodeCMap on a CMap, Stream.Decode/ObjectStream on Flate data); " + reduced +
+		"every PDF-only method is also called on every non-PDF base (unfaulted, empty, cut in half). distinct = distinct descriptors (base, part, fault class, site, replacement, entry); non-trivial = at least one fault applied. " +
+		"Oracle: the call returns a value or an error; violation = Go panic (signature panic@first tabula frame), blown step/depth/allocation budget (steps@outermost function on the stack with a hot loop, depth@most frequent function on the stack, alloc@make site), worker death, 300 s backstop."
+}
 
 func hexv(c byte) string { return fmt.Sprintf("%02X", c) }
 
